@@ -306,6 +306,18 @@ def peps_checks(ctx):
         psi.to_dict(level=2)
         if snap(psi) != sp:
             ctx.violation('Peps query changed the Peps', dict(kind='peps-mutates'))
+        # option dictionaries handed to the in-place environment updates stay what they were
+        for ename_, mk_ in (('EnvCTM.update_', lambda o_: fpeps.EnvCTM(psi, init='eye').update_(opts_svd=o_)),
+                            ('EnvCTM.ctmrg_', lambda o_: fpeps.EnvCTM(psi, init='eye').ctmrg_(opts_svd=o_, max_sweeps=1))):
+            o_ = {'D_total': 4}
+            try:
+                mk_(o_)
+            except (yastn.YastnError, TypeError, KeyError) as e:
+                ctx.count('opts-dict-call-rejected:' + ename_)
+                continue
+            ctx.case(dict(kind='opts-dict', call=ename_, rep=rep), nontrivial=True)
+            if o_ != {'D_total': 4}:
+                ctx.violation('%s(opts_svd=d) changed the dictionary it was given: %r' % (ename_, o_), dict(kind='opts-dict-mutated', call=ename_), family='ctm-opts-mutated')
         # sampling: the projectors handed over -- in every accepted container form -- stay what they were
         vecs = {0: ops.vec_n(val=0), 1: ops.vec_n(val=1)}
         forms = {'dict for all sites': lambda: dict(vecs), 'list for all sites': lambda: [vecs[0], vecs[1]],
